@@ -14,6 +14,7 @@ CONSTANTS
  InlineData = FALSE
  Conc = 64
  Probes = FALSE
+ Exts = {TRUE, FALSE}
 INIT Init
 NEXT Next
 VIEW View
